@@ -38,13 +38,21 @@ def fast_main(ids):
         results = json.load(open("/verif/seeded/RESULTS.json"))
     nw = 4
     chunks = [ids[i::nw] for i in range(nw)]
-    def work(k):
+    # the scratch worktrees are made one after the other, before the workers start (concurrent `git worktree add`s race)
+    import time
+    for k in range(nw):
         repo = f"/tmp/seedrun_repo_{k}"
-        sh(f"git -C /repo worktree remove --force {repo}")
-        shutil.rmtree(repo, ignore_errors=True)
-        rc, out = sh(f"git -C /repo worktree add -q --detach {repo} HEAD")
+        for attempt in range(5):
+            sh(f"git -C /repo worktree remove --force {repo}")
+            shutil.rmtree(repo, ignore_errors=True)
+            rc, out = sh(f"git -C /repo worktree add -q --detach {repo} HEAD")
+            if rc == 0:
+                break
+            time.sleep(2)
         if rc != 0:
             raise SystemExit(out)
+    def work(k):
+        repo = f"/tmp/seedrun_repo_{k}"
         out_res = {}
         try:
             for sid in chunks[k]:
